@@ -25,6 +25,7 @@ SIG_F4 = "C18/poll-partial-shrink-replaces-index-dropping-untouched-pages"
 SIG_F5 = "C18/poll-l1-overlaid-over-newer-l0"
 SIG_L1SHRINK = "C18/poll-l1-commit-below-polled-l0-commit-replaces-index"
 SIG_OPEN = "C18/open-index-keeps-pages-beyond-commit-after-shrink"
+SIG_WEDGE = "C18/poll-cannot-pass-maxtxid1-l1-not-contiguous-index-keeps-entries-into-deleted-l0"
 
 WHAT = {
     SIG_F4: "pollLevel replaces the whole index when a file's commit is smaller than its predecessor's; after a partial "
@@ -33,6 +34,10 @@ WHAT = {
             "below the position reached through L0 puts older page versions back",
     SIG_L1SHRINK: "pollLevel(1) starts from the commit reached by the L0 poll; an L1 file with a smaller commit (database grew in a "
                   "later L0 transaction) fires the replace rule and the index keeps only the pages of the polled L1 files",
+    SIG_WEDGE: "the L1 listing does not continue at maxTXID1+1 (rebuildIndex seeds maxTXID1 from pos when the plan holds no L1 file, "
+               "so the L1 file covering pos starts at or below it and LTXFiles' seek hides it; the next L1 file then fails the "
+               "contiguity test and every poll errors): entries that point into L0 files are never moved to L1, and after L0 "
+               "retention removes those files the reads fail with SQLITE_BUSY although Restore(TXID=Pos()) succeeds",
     SIG_OPEN: "buildIndexMap overlays the page indexes of the plan and never drops pages above the final commit; after a shrink "
               "inside the plan FileSize (largest indexed page) exceeds the restored size",
 }
@@ -41,7 +46,7 @@ WHAT = {
 def gen_cases(v, out):
     """run the harness into a directory emptied of earlier case/stat files. cmd/vfs/main.go strips the
     leading sub-command name before parsing flags, so -out/-n/-seed are honoured in this form."""
-    n = 30 if v.tier == "quick" else 1500
+    n = 20 if v.tier == "quick" else 1500
     os.makedirs(out, exist_ok=True)
     for name in ("cases.txt", "stats.json", "eval.txt"):
         try:
@@ -152,11 +157,29 @@ def analyse(v, out, cases, stats, mism):
                      (p.get("err_pages") or [])[:12], diff[:300]))
         if p.get("note", "").startswith("reference restore failed"):
             continue  # already reported as harness error
-        if (not oracle_bad) and not p.get("bad_pages") and p["size_vfs"] == p["size_ref"] \
-                and set(p.get("err_pages") or []) <= set(p.get("gone_pages") or []):
-            # the index is the right one for Pos(), but retention has deleted files it points into (the VFS
-            # lags behind L0 retention): those reads fail with SQLITE_BUSY, no read returns other bytes
-            unjudged += 1
+        if (not oracle_bad) and not p.get("bad_pages") and not p.get("err_pages") and p["size_vfs"] == p["size_ref"] \
+                and p.get("gone_pages"):
+            # the index is the right one for Pos(), but it names files retention has deleted: a cold read
+            # of those pages fails (ErrNotExist -> retries -> SQLITE_BUSY). Every check point follows an
+            # open or a poll, so the poll that should have re-pointed the entries has already run.
+            if p["ref_source"] == "archive":
+                # Restore(TXID=Pos()) does not exist on the live replica either: the property's reference is undefined
+                unjudged += 1
+                continue
+            poll_failed = False
+            if p["kind"] in ("poll", "lpoll") and p.get("model_line"):
+                obs = C.case_with_defs(cases, p["model_line"])[-1].split("\t")[2]
+                poll_failed = obs.startswith("(0 ")
+            if p["kind"] in ("poll", "lpoll") and ((dom and len(dom) > 3 and dom[3] == 1) or poll_failed):
+                sig = SIG_WEDGE
+            else:
+                sig = "C18/read-fails-where-restore-succeeds"
+            detail = ("%s at pos %d: Restore(TXID=%d) succeeds on the replica, the index is the restore's, but %d page(s) %s are "
+                      "indexed into files that are no longer on the replica (%s); domain flags %s, poll returned error: %s"
+                      % (p["kind"], p["pos"], p["pos"], len(p["gone_pages"]), p["gone_pages"][:12], p.get("note", ""), dom, poll_failed))
+            if sig not in by_sig:
+                by_sig[sig] = {"n": 0, "first": p, "detail": detail, "dom": dom}
+            by_sig[sig]["n"] += 1
             continue
         if not oracle_bad:
             sig = "C18/read-differs-with-correct-index"
@@ -188,7 +211,7 @@ def analyse(v, out, cases, stats, mism):
                      "how": "h_vfs vfs -script '<script>' ; ./check C18 --replay <this file>",
                      "case_lines": (C.case_with_defs(cases, p["model_line"]) if p.get("model_line") else [])[:40]}, True)
     return {"check_points": len(points), "check_points_failing": len(failing),
-            "check_points_reads_busy_files_deleted_by_retention": unjudged,
+            "check_points_reference_restore_undefined_on_replica": unjudged,
             "failing_by_signature": {k: d["n"] for k, d in by_sig.items()},
             "points_by_kind": _count(points, "kind")}
 
@@ -241,9 +264,10 @@ def run(v):
                 "auto_vacuum=incremental): inserts, updates, deletes, incremental_vacuum(n), VACUUM, sync, Compact(1), "
                 "Compact(2), Snapshot, L0 retention, snapshot+TXID retention, interleaved with VFS open, poll, "
                 "lock-poll-unlock, time travel and reset on a VFSFile over the file replica (1-page and 10 MiB page cache). "
-                "13 directed histories (the shapes of F4/F5 and neighbours) run with both cache sizes, then seeded random ones. "
-                "Per check point: ReadAt of every page and FileSize vs Restore(TXID=Pos()) bytes (page-1 bytes 18,19,24..27 "
-                "masked), the index vs the model (vfs_open / vfs_poll / vfs_lockop) and vs the L0-ledger oracle "
+                "15 directed histories (the shapes of F4/F5 and neighbours) run with both cache sizes, then seeded random ones. "
+                "Per check point: ReadAt of every page, once with the cache as the history left it and once with a purged (cold) "
+                "cache, and FileSize vs Restore(TXID=Pos()) bytes (page-1 bytes 18,19,24..27 masked); a page indexed into a file "
+                "that retention deleted while Restore(TXID=Pos()) succeeds is a violation; the index vs the model (vfs_open / vfs_poll / vfs_lockop) and vs the L0-ledger oracle "
                 "(vfs_pages_ok). distinct = distinct (entry,input); non-trivial = plan of more than one file / poll that "
                 "consumed a file / lock op with pending entries / oracle on an index of more than one page.",
         "samples": [s[:700] for s in stats["samples"]],
